@@ -295,6 +295,29 @@ def align_address_harness(ctx):
     ctx.prove("align_address/least-one-not-below-the-address", z3.And(r >= a, r < a + al))
 
 
+def nop_harness(ctx):
+    """"the only bytes added are whole nops": ABI.nop() is what every padding run is made of (prepare / join_byte_intervals use
+    abi.nop() * n), so for every registered ABI it has to be the encoding of exactly one architectural no-op.  Two independent
+    oracles: the architecture manuals' encodings (x86 90; A64 NOP = HINT #0 = 0xD503201F, little-endian in memory; MIPS32 sll $0,$0,0
+    = 0x00000000) and capstone decoding with the mode chosen here, not by the library."""
+    import capstone
+    from gtirb_rewriting import abi as ABIM
+    keys = sorted(ABIM._ABIS, key=lambda k: (k[0].name, k[1].name))
+    isa, ff = keys[ctx.choose(len(keys), "abi")]
+    nop = ABIM._ABIS[(isa, ff)].nop()
+    I = gtirb.Module.ISA
+    manual = {I.X64: b"\x90", I.IA32: b"\x90", I.ARM64: bytes.fromhex("1f2003d5"), I.MIPS32: bytes(4)}
+    modes = {I.X64: [(capstone.CS_ARCH_X86, capstone.CS_MODE_64)], I.IA32: [(capstone.CS_ARCH_X86, capstone.CS_MODE_32)],
+             I.ARM64: [(capstone.CS_ARCH_ARM64, capstone.CS_MODE_ARM)],
+             I.MIPS32: [(capstone.CS_ARCH_MIPS, capstone.CS_MODE_MIPS32 | capstone.CS_MODE_BIG_ENDIAN), (capstone.CS_ARCH_MIPS, capstone.CS_MODE_MIPS32 | capstone.CS_MODE_LITTLE_ENDIAN)]}
+    ctx.cover("enumerated")
+    ctx.prove("ABI.nop/is-the-architectural-no-op-encoding", z3.BoolVal(isa in manual and nop == manual[isa]), note="%s/%s nop()=%s" % (isa.name, ff.name, nop.hex()))
+    for arch, mode in modes.get(isa, []):
+        ins = list(capstone.Cs(arch, mode).disasm(nop * 3, 0))
+        ok = len(ins) == 3 and all(i.mnemonic == "nop" and i.size == len(nop) for i in ins)
+        ctx.prove("ABI.nop/a-run-of-them-decodes-as-whole-nops", z3.BoolVal(ok), note="%s/%s nop()*3 decodes as %s" % (isa.name, ff.name, [i.mnemonic for i in ins]))
+
+
 def c10_bounded(tier, seed):
     def run():
         from bounded import scen
@@ -689,11 +712,16 @@ def jobs_c09(tier="quick", seed=0):
     for j in c16_invoke.jobs(tier, seed):
         j.id = "C09/" + j.id
         yield j
+    from . import kernel_ordering
+    for j in kernel_ordering.jobs(tier, seed):
+        j.id = "C09/" + j.id
+        yield j
     yield Job("C09/batch-and-monitor-bounded", c09_bounded(tier, seed), kind="B", func="gtirb_rewriting.rewriting:RewritingContext.apply / _modify.insert / delete")
 
 
 def jobs_c10(tier="quick", seed=0):
     yield Job("C10/align_address", align_address_harness, setup=lambda: shims.installed([UT]), kind="E", func="gtirb_rewriting.utils:align_address")
+    yield Job("C10/abi-nop", nop_harness, kind="E", func="gtirb_rewriting.abi:ABI.nop (all registered ABIs)", expect_cover=("enumerated",))
     yield Job("C10/noop-splitjoin-alignment-bounded", c10_bounded(tier, seed), kind="B", func="gtirb_rewriting.prepare:prepare_for_rewriting / intervalutils")
 
 
@@ -703,4 +731,10 @@ def jobs_c11(tier="quick", seed=0):
         if j.id == "C07/resolve_offsets":
             j.id = "C11/" + j.id
             yield j
+    # functions that walk SETS of blocks (identity hashes: the order changes from run to run): a contract that fixes the result
+    # block by block, as a function of the IR alone, makes the iteration order unobservable
+    from . import kernel_edges
+    for j in kernel_edges.jobs(tier, seed):
+        j.id = "C11/" + j.id
+        yield j
     yield Job("C11/hash-seeds-bounded", c11_bounded(tier, seed), kind="B", func="gtirb_rewriting.rewriting:RewritingContext.apply")
